@@ -13,6 +13,9 @@ Implementation side: the REAL `resource_tracker.main` of VERIF_REPO running in i
 A "world" = one tracker + a directory of files/folders (+ one POSIX semaphore) + several client processes + a scripted
 history (requests, malformed lines, clients exiting or being SIGKILLed, paths deleted/recreated by the clients).
 Synchronisation: a sentinel file is registered and maybe_unlinked through the pipe and its disappearance polled.
+SIGINT / SIGTERM reach the tracker at every phase of its life (pending from before main(): sent right after the spawn, the
+launcher's blocked mask reproduced in direct mode and real in api mode; between requests; during the EOF clean-up) and end
+clients; expected effect on the tracker: none (model: JoblibModel.TrackerSignals.life says `alive`).
 At every check point and after EOF the existence of every path is compared
   (a) with the Lean model (its clean-up actions replayed on a small file-system simulation)   -> res.diverge
   (b) with an independent oracle: a plain Python refcount dict                                   -> res.fail
@@ -65,6 +68,13 @@ REQUIRED_THEOREMS = [
     "C20.eventually_deleted",
     "C20.eventually_deleted_at_exit",
     "C20.client_invariants",
+    # signals at every phase of the tracker's life (JoblibModel.TrackerSignals)
+    "C20.start_never_loses_to_a_pending_signal",
+    "C20.unblock_before_ignore_counterexample",
+    "C20.launcher_mask_is_needed",
+    # the asynchronous pipe (JoblibModel.TrackerLag): F60, and the synchrony hypothesis of the client theorems
+    "C20.tracker_lag_counterexample",
+    "C20.lag_with_caught_up_tracker_is_synchronous",
 ]
 TRUSTED_EXTRA = [
     "modelled, not verified: the OS — a pipe delivers the clients' writes as one byte stream in write order, writes <= PIPE_BUF "
@@ -75,11 +85,20 @@ TRUSTED_EXTRA = [
     "bytes.strip, str.split/join, dict insertion order, the warnings module (default filter: same text shown once)",
     "verbose=1 / util.debug branches of main() are not modelled (off by default)",
     "Windows branches (msvcrt, PermissionError retry of unlink_file) are not modelled",
-    "client model, modelled not verified: synchrony — every request is processed by the tracker before the client looks at the "
-    "disk again (what the sleeps/retries of delete_folder are for; the probe replaces the sleeps by a real synchronisation with "
-    "the tracker); one name per (manager id, context id, array): uuid4 / id() uniqueness; the weak-key map of the reducer "
+    "client model, ASSUMED (false of the real system — finding F60 of C19): synchronous composition — every request is processed "
+    "by the tracker before any client looks at the disk again (os.path.exists in the reducer, os.listdir in the clean-up, the "
+    "worker's open). C20.never_deleted_while_held, refcount_matches_users, eventually_deleted_at_exit speak about that "
+    "composition only; with the real FIFO pipe and a lagging tracker a dump is unlinked while a pickled task needs it "
+    "(C20.tracker_lag_counterexample on JoblibModel.TrackerLag; the hypothesis that restores the synchronous statements is "
+    "'the tracker catches up between any two client steps', C20.lag_with_caught_up_tracker_is_synchronous). The probe realises "
+    "the hypothesis: it replaces the sleeps/retries of delete_folder by a real synchronisation with the tracker after every "
+    "operation, so the lag is NOT explored by this check; one name per (manager id, context id, array): uuid4 / id() uniqueness; the weak-key map of the reducer "
     "(arrays stay alive in the probe); loky's executor reuse rules are transcribed (arguments compared, shutdown flag), loky's "
     "worker management itself is replaced by stand-in worker processes that run the real un-pickling and finalizers",
+    "signals, modelled not verified: the kernel's rules in JoblibModel.TrackerSignals (an ignored signal is discarded when generated, a "
+    "blocked one stays pending, SIG_IGN discards the pending one, unblocking delivers; delivery with the start-up disposition ends "
+    "main()); only SIGINT/SIGTERM; signals sent to the tracker pid by the harness (not to the process group); the exact landing "
+    "point of a signal sent a few ms after the spawn is the scheduler's",
     "client model: the memmaps of MemmappingPool workers are not registered users (unlink_on_gc_collect=False): the model's "
     "monitor counts them only for deletions done by the main process itself; the probe's oracle covers them for all deletions",
 ]
@@ -398,6 +417,8 @@ class World:
         self.tracepath = self.dir / (Path(root).name + ".strace")
         self.rc = None
         self.final = None
+        # ":after-signal-…" while a signal has been sent to the tracker since it last proved to be alive (classification only)
+        self.sig_phase = ":after-signal-pending-at-start" if spec.get("start_sig") and not spec.get("strace") else ""
 
     # -- plumbing
     def tracker_alive(self):
@@ -491,13 +512,14 @@ class World:
                     t_end = 0
             if time.time() > t_end:
                 if not self.tracker_alive():
-                    self.problems.append(("tracker:died", f"tracker gone before EOF (sync {self.nsync})"))
+                    self.problems.append(("tracker:died" + self.sig_phase, f"tracker gone before EOF (sync {self.nsync})"))
                 else:
                     self.problems.append(("tracker:sentinel-not-deleted",
                                           f"sentinel registered+maybe_unlinked but still there after {timeout}s (sync {self.nsync})"))
                 return False
             time.sleep(delay)
             delay = min(delay * 1.5, 0.02)
+        self.sig_phase = ""
         return True
 
     def check(self, label):
@@ -516,6 +538,7 @@ class World:
             os.kill(self.trk_pid, getattr(signal, name))
         except ProcessLookupError:
             pass
+        self.sig_phase = self.sig_phase or ":after-signal-in-command-loop"
 
     # -- the history
     def run(self):
@@ -528,7 +551,8 @@ class World:
                     return
             self.ending()
         except TrackerGone as e:
-            self.problems.append(("tracker:died", f"a client's write to the pipe failed ({e}): the tracker stopped reading before EOF"))
+            self.problems.append(("tracker:died" + self.sig_phase,
+                                  f"a client's write to the pipe failed ({e}): the tracker stopped reading before EOF"))
         finally:
             self.teardown()
 
@@ -1173,6 +1197,23 @@ def add_signals(rng, spec):
     return spec
 
 
+def _signal_request(spec):
+    """The world's signals as a request to the model: pending at the start of main() (sent with no delay after the spawn) or
+    arriving before its first statement (sent a little later: where exactly it lands is the scheduler's choice — the model's
+    answer must not depend on it), then during the command loop and the EOF clean-up."""
+    if spec.get("strace"):
+        return None
+    let = {"SIGINT": "i", "SIGTERM": "t"}
+    st, delay = spec.get("start_sig"), spec.get("start_delay", 0.0)
+    later = [let[ev["sig"]] for ev in spec["events"] if ev["op"] == "sig"] + [let[x] for x in spec["ending"].get("sigs", [])]
+    if not st and not later:
+        return None
+    pi = int(st == "SIGINT" and not delay)
+    pt = int(st == "SIGTERM" and not delay)
+    a0 = let[st] if st and delay else "-"
+    return f"S {pi} {pt} {a0} - - {''.join(later) or '-'}"
+
+
 def _req(cmd, key, rtype=None, client="h", **kw):
     return dict(op="req", client=client, cmd=cmd, key=key, rtype=rtype or _natural(key), **kw)
 
@@ -1378,7 +1419,9 @@ def _explore(ctx, worlds, salt, res=None, usage=True):
     res.rule = ("one world = one real tracker process + 13 named resources (files incl. ':' and ' ' in the name, 2 folders holding "
                 "tracked and untracked files, a missing path, a real POSIX semaphore and a missing one) + 1..6 client processes + a history "
                 "of 6..45 (thorough: ..120) events: requests (7% wrong type, 15% unbalanced), 27 kinds of malformed line, lines split "
-                "across two writers, half-written lines of dying clients, clients exiting/SIGKILLed, paths deleted/recreated by clients; "
+                "across two writers, half-written lines of dying clients, clients exiting/SIGKILLed/SIGTERMed/SIGINTed, paths deleted/recreated "
+                "by clients, SIGINT/SIGTERM sent to the tracker right after its spawn (14% of the worlds), between requests (25%) and "
+                "during the EOF clean-up (20% of the direct worlds); "
                 "evaluation = one synchronised comparison of the existence of all 15 paths (model and oracle); non-trivial = a world in "
                 "which a count reached zero or something was left for EOF; distinct by the canonical byte stream + ending")
     core.use_repo()
@@ -1415,6 +1458,20 @@ def _explore(ctx, worlds, salt, res=None, usage=True):
     replies = ctx.driver().run(reqs) if reqs else []
     for idx, (w, (a, n, tags)) in enumerate(zip(done, spans)):
         judge_world(w, replies[a:a + n], tags, res, swallow, idx)
+    # the signal side (JoblibModel.TrackerSignals.life): does the tracker of this world outlive the signals it was sent?
+    sreqs, sws = [], []
+    for idx, w in enumerate(done):
+        q = _signal_request(w.spec)
+        if q:
+            sreqs.append(q)
+            sws.append((idx, w))
+    for (idx, w), rep in zip(sws, ctx.driver().run(sreqs) if sreqs else []):
+        died = any(sig.startswith("tracker:died") for sig, _ in w.problems) or any(it[0] == "check" and not it[3] for it in w.tl)
+        res.evaluations += 1
+        if rep.strip() not in ("alive", "dead"):
+            raise core.InfraError(f"driver reply {rep!r}")
+        if (rep.strip() == "alive") == died:
+            res.diverge("signals", dict(world=w.spec, idx=idx), dict(tracker="died" if died else "alive"), dict(tracker=rep.strip()))
     if usage and bad < 6:
         for i, v in enumerate(["clean", "force", "killed"]):
             run_usage(ctx, res, v, i)
@@ -1450,7 +1507,8 @@ def _load_corpus():
 
 CLIENT_RULE = (" || client side: one program = one real main process (python3-vt + numpy: real Parallel objects on the loky and "
                "multiprocessing backends, get_memmapping_executor, ArrayMemmapForwardReducer through loky's pickler, "
-               "TemporaryResourcesManager, delete_folder, atexit callbacks) + its real tracker + 0..4 stand-in worker processes sharing "
+               "TemporaryResourcesManager, delete_folder, atexit callbacks; 1 program in 6 keeps several Parallel objects on ONE "
+               "executor/manager with interleaved calls and memmaps held across them) + its real tracker + 0..4 stand-in worker processes sharing "
                "the pipe (real load_temporary_memmap + finalizers) + 8..36 (thorough ..70) operations; evaluation = one operation "
                "after which status, the request sequence (ResourceTracker._send wrapped in every process) and every folder/file on "
                "disk are compared with the model; non-trivial = a program in which a MAYBE_UNLINK or UNREGISTER was sent; "
@@ -1459,7 +1517,8 @@ CLIENT_RULE = (" || client side: one program = one real main process (python3-vt
 
 def _client(ctx, res, n, salt, big=False):
     core.use_repo()
-    progs = c20_client.corpus_programs() + c20_client.programs_for(ctx, n, salt, big=big)
+    progs = (c20_client.corpus_programs() + c20_client.programs_for(ctx, n, salt, big=big)
+             + c20_client.shared_programs_for(ctx, max(6, n // 5), salt, big=big))
     c20_client.explore(ctx, res, progs, salt)
     res.rule += CLIENT_RULE
     return res
